@@ -807,6 +807,8 @@ class Interp:
             path = tg[1:]
             for p in path[:-1]:
                 o = o.fields.get(p)
+                if isinstance(o, VOpt):
+                    o = o.inner       # Optional[object]: the fields of the object, if it is there
                 if not isinstance(o, VObj):
                     return
             cur = o.fields.get(path[-1])
@@ -1078,6 +1080,14 @@ class Interp:
         if not parts:
             return VStr("")
         return VStr(parts[0] if len(parts) == 1 else z3.Concat(*parts), "str")
+
+    def e_Yield(self, e, fr):
+        # generators are outside the subset; a property module may give `yield` a meaning
+        # (e.g. the inlineCallbacks protocol) through reg.ext_models["yield"]
+        h = self.reg.ext_models.get("yield")
+        if h is None:
+            raise OutOfSubset(f"expression Yield at line {getattr(e, 'lineno', '?')}")
+        return h(self, self.eval(e.value, fr) if e.value is not None else NONE, fr)
 
     def e_Lambda(self, e, fr):
         fd = source.FuncDef(fr.module, "<lambda>", e, None, ast.unparse(e))
@@ -1572,6 +1582,14 @@ class Interp:
         it = self.iterable_of(it)
         if isinstance(it, VDict):
             it = VList([self.const(k) for k in it.d])
+        if not isinstance(it, (VList, VTuple)):
+            # property modules may model a comprehension over a symbolic collection (e.g. one boundary
+            # call per element); the hook returns None when the shape is not the one it models
+            h = self.reg.ext_models.get("comprehension")
+            if h is not None:
+                r = h(self, e, g, it, fr)
+                if r is not None:
+                    return r
         if isinstance(it, VSeq):
             return self.comp_map(e, g, it, fr)
         if not isinstance(it, (VList, VTuple)):
@@ -1780,6 +1798,10 @@ class Interp:
             raise OutOfSubset(f"call of opaque {f.name}")
         if f is NONE:
             self.raise_("TypeError", VStr("'NoneType' object is not callable"))
+        if isinstance(f, VObj):
+            m = self.find_method(f.cls, "__call__")
+            if m is not None:
+                return self.call_func(VFunc(m, f, None, "__call__"), args, kwargs, fr)
         raise OutOfSubset(f"call of {f!r}")
 
     def bind_args(self, fnode, args, kwargs, fr_new, def_frame):
